@@ -49,6 +49,34 @@ theorem OutEq.rfl' (o : Out) : OutEq o o := by
 
 /-! ### reads -/
 
+theorem asRange_err (r : Range) (len : Nat) (e : Err) (h : asRange r len = .error e) : e = .generic := by
+  cases r with
+  | bounded s e' =>
+      simp only [asRange] at h
+      split at h
+      · cases h; rfl
+      · split at h
+        · cases h; rfl
+        · split at h <;> cases h
+  | offset o =>
+      simp only [asRange] at h
+      split at h
+      · cases h; rfl
+      · cases h
+  | suffix n => simp [asRange] at h
+
+/-- `EncryptedStore`'s early range check answers what the backend's range resolution would -/
+theorem readRange_of_rangeFails (b : Bytes) (r : Option Range) (h : rangeFails r b.length = true) :
+    readRange b r = .error .generic := by
+  cases r with
+  | none => simp [rangeFails] at h
+  | some r =>
+      simp only [rangeFails] at h
+      simp only [readRange]
+      cases ha : asRange r b.length with
+      | error e => rw [asRange_err r _ e ha]
+      | ok v => simp [ha] at h
+
 theorem refine_get {w : W} {r : Ref} (h : Sim w r) (now : Nat) (k : Path) (o : GetOpts) (tok : Tok) :
     Sim (wStep w now (.get k o)).1 (refStep r tok now (.get k o)).1 ∧
     (wStep w now (.get k o)).2 = (refStep r tok now (.get k o)).2 := by
@@ -62,23 +90,30 @@ theorem refine_get {w : W} {r : Ref} (h : Sim w r) (now : Nat) (k : Path) (o : G
   · rw [hd, hr]
     simp only []
     have hlm : logicalLM d = some t := by simp [logicalLM, ht]
-    have hatt : getAttempt w1.be k d o =
+    have hatt : ∀ enc, getAttempt enc w1.be k d o =
         .done (match rfcPrecond o (some tk) t with
           | some e => .error e
           | none =>
               match readRange b o.range with
               | .error e => .error e
               | .ok (rng, data) => .ok (.got { path := k, size := b.length, tok := some tk, time := t } rng data)) := by
+      intro enc
       unfold getAttempt
       simp only [hlm, he]
       rw [checkGet_eq]
       cases hp : rfcPrecond o (some tk) t with
       | some e => rfl
       | none =>
-          simp only [hbe1, hb, checkRef_stripped, Option.getD_some]
-          cases readRange b o.range with
-          | error e => rfl
-          | ok v => obtain ⟨rng, data⟩ := v; simp [hs]
+          simp only [getFetch]
+          by_cases hrf : (enc && rangeFails o.range d.size) = true
+          · simp only [hrf, if_true]
+            simp only [Bool.and_eq_true] at hrf
+            rw [hs] at hrf
+            rw [readRange_of_rangeFails b o.range hrf.2]
+          · simp only [hrf, Bool.false_eq_true, if_false, servedOut, hbe1, hb, checkRef_stripped, hlm, he, Option.getD_some]
+            cases readRange b o.range with
+            | error e => rfl
+            | ok v => obtain ⟨rng, data⟩ := v; simp [hs]
     rw [hatt, checkRef_eq]
     simp only []
     cases hp : rfcPrecond o (some tk) t with
